@@ -114,14 +114,20 @@ def minimum_for(case):
 def warm():
     """Optional earlier call on the SAME ColorPair object with other settings (None two times in three): results
     must not depend on it (a per-object memo or a cache keyed on part of the arguments would make them)."""
-    return st.one_of(st.none(), st.none(), st.fixed_dictionaries({"mode": st.sampled_from([0, 1, 2]), "very": st.booleans()}))
+    return st.one_of(st.none(), st.none(), st.fixed_dictionaries({"mode": st.sampled_from([0, 1, 2]), "very": st.booleans(),
+                                                                  "large": st.sampled_from([None, None, False, True])}))
 
 
 def call_make_readable(pair, case, **extra):
     w = case.get("warm")
     if w:
         try:
-            pair.make_readable(mode=w["mode"], very_readable=w["very"])
+            if w.get("large") is None:
+                pair.make_readable(mode=w["mode"], very_readable=w["very"])  # same object
+            else:
+                from cm_colors import ColorPair  # same colours, another text size: a different object
+
+                ColorPair(gc.dec(case["text"]), gc.dec(case["bg"]), w["large"]).make_readable(mode=w["mode"], very_readable=w["very"])
         except Exception as e:
             raise Violation(exc_bucket(e), f"warm-up make_readable(mode={w['mode']}, very_readable={w['very']}) raised {e!r} for {describe(case)}")
     try:
